@@ -377,6 +377,13 @@ class Parser:
 
         return False
 
+    def __get_block_owner(self):
+        """Return the control/action command the current tests belong to."""
+        owner = self.__curcommand
+        while owner.get_type() == "test" and owner.parent is not None:
+            owner = owner.parent
+        return owner
+
     def __command(self, ttype: str, tvalue: bytes) -> bool:
         """Command parsing method
 
@@ -425,11 +432,19 @@ class Parser:
             return True
 
         if ttype == "left_cbracket":
+            if not self.__get_block_owner().accept_children:
+                raise ParseError(
+                    "unexpected block after %s" % self.__get_block_owner().name
+                )
             self.__push_expected_bracket("right_cbracket", b"}")
             self.__cstate = None
             return True
 
         if ttype == "semicolon":
+            if self.__get_block_owner().accept_children:
+                raise ParseError(
+                    "block expected after %s" % self.__get_block_owner().name
+                )
             self.__cstate = None
             if not self.__check_command_completion(testsemicolon=False):
                 return False
